@@ -288,8 +288,20 @@ func Render(p Program, st Style, f Features) string {
 		}
 	}
 	renderItems = func(items []Item) {
-		for _, it := range items {
+		for i := 0; i < len(items); i++ {
+			it := items[i]
 			filler()
+			// a metadata or ;assert comment line may stand between a label that is on a line
+			// of its own and the instruction it belongs to
+			if f.OwnLine && (it.Kind == KAssert || it.Kind == KMeta) && i+1 < len(items) && items[i+1].Kind == KInstr && len(items[i+1].Labels) > 0 && s.pick(3) == 1 {
+				next := items[i+1]
+				emit(indent() + strings.TrimRight(s.labels(next.Labels, rn, f.Colons, false), " \t"))
+				renderItem(it)
+				next.Labels = nil
+				renderItem(next)
+				i++
+				continue
+			}
 			renderItem(it)
 		}
 	}
